@@ -47,6 +47,9 @@ Inductive pcase :=
 | PCacheDirPkg (root ustr path : string) (out : option string)
 | PKeyPath (element : string) (out : option string)
 | PKeyName (k : string) (rejected : bool)
+| PHexOk (s : string) (ok : bool)                       (* hex.DecodeString succeeds *)
+| PCacheMember (cacheDir datahash dat tarf : string)    (* the two names cachedPackage builds; the suffixes in the
+                                                           harness are literals, the model's come from the source *)
 | PLookup (which : string) (tree : tnode) (path : string) (obs : lkind).
 
 Definition all_in (alpha : str) (s : str) : bool := forallb (fun c => existsb (Ascii.eqb c) alpha) s.
@@ -130,6 +133,13 @@ Definition check_path (c : pcase) : list string :=
       | None => []   (* the fetch or the write failed; nothing was stored *)
       end
   | PKeyName k rejected => tag_if (negb (Bool.eqb (negb (keyname_ok (la k))) rejected)) "mismatch:keyname-check"
+  | PHexOk s ok => tag_if (negb (Bool.eqb (hex_ok (la s)) ok)) "mismatch:hex-decodes"
+  | PCacheMember d h dat tarf =>
+      tag_if (negb (str_eqs (cache_member_path (la d) (la h)) dat)) "mismatch:cache-member-path" ++
+      tag_if (negb (str_eqs (cache_member_tar (la d) (la h)) tarf)) "mismatch:cache-member-tar" ++
+      (if is_abs (la d) && hex_ok (la h)
+       then tag_if (negb (underb (la d) (la dat) && underb (la d) (la tarf))) "viol:cache-member-escapes-cache-dir"
+       else [])
   | PLookup which t path obs =>
       let ml := if String.eqb which "tarfs" then tarfs_max_links else memfs_max_links in
       let r := get_node (S (S ml)) ml (to_node t) (la path) 0 in
